@@ -147,6 +147,7 @@ func newWal(db string, forceSync bool) (*wal, error) {
 	if err != nil {
 		return nil, err
 	}
+	verifWalOpened(file, db)
 	return &wal{
 		reader:    file,
 		forceSync: forceSync,
@@ -217,12 +218,14 @@ func (w *wal) flush(batch WALBatch) error {
 		tupleLen := len(tupleBuf.Bytes())
 		binary.LittleEndian.PutUint32(tupleLenBuf, uint32(tupleLen))
 
+		verifWalIO(w.reader, verifWalWriteLen, tupleLenBuf)
 		if n, err := w.reader.Write(tupleLenBuf); err != nil {
 			return err
 		} else if n != len(tupleLenBuf) {
 			panic("bytes written differs from expected buffer length")
 		}
 
+		verifWalIO(w.reader, verifWalWriteBody, tupleBuf.Bytes())
 		if n, err := w.reader.Write(tupleBuf.Bytes()); err != nil {
 			return err
 		} else if n != tupleLen {
@@ -230,11 +233,14 @@ func (w *wal) flush(batch WALBatch) error {
 		}
 
 		if w.forceSync {
+			verifWalIO(w.reader, verifWalSync, nil)
 			if err := w.reader.Sync(); err != nil {
 				return err
 			}
 		}
 	}
+
+	verifWalIO(w.reader, verifWalFlushDone, nil)
 
 	return nil
 }
@@ -247,9 +253,11 @@ func (w WALBatch) replay(fs *fileStore) error {
 			return err
 		}
 		if row.LSN <= node.getLastLSN() {
+			verifReplay(fs, row, false)
 			// this update has already been committed to disk
 			continue
 		}
+		verifReplay(fs, row, true)
 		switch row.WALOp {
 		case OpInsert:
 			bt := &BTree{store: fs}
